@@ -496,7 +496,7 @@ def check_c10(out, tier, seed):
     out.add_cov(states=out.cov.get("spec_states", 0) + r["states"], transitions=out.cov.get("spec_transitions", 0) + r["states"],
                 traces_validated_against_impl=len(traces), events_validated=r["states"], query_events=nq,
                 query_groups=len(queries.GROUPS), evaluations=nq, distinct_nontrivial=len(traces),
-                rule="13 query groups (string conversion, field/tag reads, validation, clone/==/diff, link tests, "
+                rule="15 query groups (edits of clones and complements, edits of converted copies, string conversion, field/tag reads, validation, clone/==/diff, link tests, "
                      "alignment queries, neighbourhoods, group resolution, collections, finders, topology, linear "
                      "paths, select) run twice each in random order in states reached by document-first random "
                      "histories and by every TLC-enumerated history of the small catalogues")
